@@ -20,7 +20,7 @@ import random
 import threading
 
 from ..core import LEAN, REPO, Prop, Violation, import_repo, write_if_changed
-from ..extract import e3_metabolism
+from ..extract import e3_metabolism, e5_metabolism, py2lean_metabolism
 from ..util import Sched, SLock, burst_schedule
 
 CURS = ["atp", "gtp", "nadh"]
@@ -56,12 +56,14 @@ class C05(Prop):
     assumptions = [
         "a thread switch happens only between source lines of operon_ai/state/metabolism.py (line-level scheduler); "
         "preemption inside a line is not exhibited",
-        "region bodies are the sequential functions of Operon.Model.Atp, validated against the code by C04's correspondence",
+        "region bodies are the sequential functions of Operon.Model.Atp, proved equal to the functions translated from the source "
+        "on every run (c05_region_bodies_are_the_translated_source) and validated against the code by C04's correspondence",
         "apply_debt_interest (runs without the lock, not in the property's operation list) and the background "
         "regeneration thread are outside the model",
     ]
     trusted_modelled = [
         "extractor E3 (lockshape/e3_metabolism): region structure of consume/regenerate/convert/transfer_to, regenerated each run",
+        "translator py2lean_metabolism (statement lists of the lock-region bodies -> Operon/Gen/AtpTranslated.lean), regenerated each run",
         "modelled, not verified: threading.Lock semantics as Operon.Lock.Step; ATP_Store regions as Operon.AtpConc.body",
     ]
 
@@ -75,7 +77,10 @@ class C05(Prop):
     def extract(self, ctx):
         facts = e3_metabolism.extract(REPO)
         changed = write_if_changed(LEAN / "Operon/Gen/AtpLocks.lean", e3_metabolism.render(facts))
-        return [{"id": "E3-metabolism", "facts": facts, "facts_changed": changed}]
+        # the region bodies are the functions translated from the source (c05_region_bodies_are_the_translated_source
+        # rests on C04's agreement theorems): regenerate the translation and the constants it is stated with
+        return [{"id": "E3-metabolism", "facts": facts, "facts_changed": changed},
+                e5_metabolism.run(REPO, LEAN, write_if_changed), py2lean_metabolism.run(REPO, LEAN, write_if_changed)]
 
     # --- programs ------------------------------------------------------------------------------------------
     PROGRAMS = [
